@@ -145,6 +145,8 @@ def run(prop, tier, seed, scratch, t0):
         rs["out"] = ""
         senv = dict(env, VERIF_SIM_DIR=os.path.join(simdir, "b"))
         del senv["VERIF_DOT"]
+        if not adv:
+            senv["VERIF_NOWATCH"] = "B"  # in the simulated behaviours of the honest runs B never calls Channel.Watch
         with cf.ThreadPoolExecutor(max_workers=shards) as ex:
             ds2 = list(ex.map(lambda k: vlib.run_driver(binary, "TestSettle", dict(senv, VERIF_SHARD=k), scratch,
                                                         "settlesim%d_%d" % (i, k), timeout=6000), range(shards)))
